@@ -223,8 +223,8 @@ def get_units():
 # neither stops short of the checksum nor asks for bytes that never come) and returns F.
 from spec import checks as CK
 
-EXC_ADU = {'rtu': 5, 'ascii': 11, 'binary': 7, 'socket': 9}        # unit + fc|0x80 + code + framing, MODBUS over serial line v1.02 / MBAP
-FQ = {'rtu': RTU, 'ascii': ASCII, 'binary': BINARY, 'socket': SOCKET}
+EXC_ADU = {'rtu': 5, 'ascii': 11, 'binary': 7, 'socket': 9, 'tls': 2}        # unit + fc|0x80 + code + framing, MODBUS over serial line v1.02 / MBAP
+FQ = {'rtu': RTU, 'ascii': ASCII, 'binary': BINARY, 'socket': SOCKET, 'tls': TLS}
 
 
 def frame_fc(kind, f):
@@ -234,6 +234,8 @@ def frame_fc(kind, f):
         return L.at(f, 2)
     if kind == 'socket':
         return L.at(f, 7)
+    if kind == 'tls':
+        return L.at(f, 0)
     return CK.hexval(L.at(f, 3)) * 16 + CK.hexval(L.at(f, 4))
 
 
@@ -242,7 +244,7 @@ def recv_exact(kind, reply):
         tm, fr = manager(E, FQ[kind])
         client = E.get(tm, 'client')
         E.set(fr, 'client', client)
-        frame = E.bytes('frame', EXC_ADU[kind] if reply == 'exception' else {'rtu': 4, 'ascii': 9, 'binary': 6, 'socket': 8}[kind], 600)
+        frame = E.bytes('frame', EXC_ADU[kind] if reply == 'exception' else {'rtu': 4, 'ascii': 9, 'binary': 6, 'socket': 8, 'tls': 2}[kind], 600)
         n = L.length(frame)
         if kind == 'ascii':
             E.assume(L.And(CK.hexval(L.at(frame, 3)) >= 0, CK.hexval(L.at(frame, 4)) >= 0))      # a frame: the function code is two hex digits
@@ -268,7 +270,9 @@ def recv_exact(kind, reply):
         E.set(client, 'state', 2)
         E.set(client, 'last_frame_end', 0)
         out = E.attempt(lambda: E.method(tm, '_recv', expected, False))
-        E.prove('read:no-exception', out.ok)
+        # TLS: the reader asks for the whole predicted normal length first and rejects anything shorter, so an exception reply (2 bytes) is never read as such
+        fk = {'finding': 'C14-F3', 'region': expected != n} if (kind == 'tls' and reply == 'exception') else {}
+        E.prove('read:no-exception', out.ok, **fk)
         if not out.ok:
             return
         E.prove('read:requests-exactly-the-reply-frame(not-short-of-the-checksum,not-waiting-for-more)', asked[0] == n)
@@ -291,7 +295,7 @@ def recv_twin(kind, reply):
             pdu = [r.randrange(1, 0x80)] + [r.randrange(256) for _ in range(r.choice([1, 2, 4, 5, 9, 40]))]
         if kind == 'binary':
             pdu = [b if b not in (0x7B, 0x7D) else 0x11 for b in pdu]
-        fr = concrete_frame(kind, uid, pdu, r.randrange(65536))
+        fr = concrete_frame(kind, uid, pdu, r.randrange(65536)) if kind != 'tls' else list(pdu)
         return {'frame': {'items': fr}, 'predicted_normal_length': r.randrange(4, 300)}
     return make
 
@@ -301,7 +305,7 @@ _get_units1 = get_units
 
 def get_units():
     us = _get_units1()
-    for kind in ('rtu', 'ascii', 'binary', 'socket'):
+    for kind in ('rtu', 'ascii', 'binary', 'socket', 'tls'):
         for reply in ('normal', 'exception'):
             us.append(Unit('C14/read.%s.%s' % (kind, reply), recv_exact(kind, reply), ['C14'], twin=recv_twin(kind, reply),
                            functions=[TM + '._recv', TM + '._calculate_exception_length', FQ[kind] + '.recvPacket']))
